@@ -297,8 +297,8 @@ func (engC12) Rule() string {
 func (engC12) Assumptions() []string {
 	return []string{
 		"keys are non-nil and comparable (the API documents a panic otherwise)",
-		"live-cell pointers are re-fetched through the table before every use; only column handles and by-value copies are kept across steps (that is what the statement promises)",
-		"the stored-state size is observed through fmt %#v, which prints the chain; renderer-private keys on cells are excluded by not measuring cells after a render",
+		"live cells are reached through CellAt before every use; only column handles and by-value copies are kept across steps (that is what the statement promises); header cells and cells of rows not yet in a table are read, never written through what Cells()/Headers() hand out",
+		"stored-state growth is observed through fmt %#v without depending on its format: whenever an owner holds the same set of keys (and value width classes) as at an earlier step, the printed size of its .Props{...} part must be the same; renderer-private keys on cells are excluded by not measuring cells after a render",
 	}
 }
 
@@ -443,6 +443,9 @@ func (engC13) Assumptions() []string {
 		"combinations the statement does not list are only required to fire at most once per target per pass: callbacks on the defaults column 0, column-level cell callbacks on header cells, row-itself callbacks at add time, any 'itself' callback at plain render time, row-targeted table callbacks at render time, table/column cell callbacks for a cell added after its row was attached",
 		"at add time only counts per (registration, target) are compared (the statement fixes a nesting order only for render time)",
 		"cells are identified by their (unique) item, rows and the table by pointer, columns by pointer or, for a copy, by an identity property set on the real column",
+		"only CellAt is taken to hand out the cell itself: cells of rows in the table are compared by address and written/registered through CellAt; header cells and cells of rows not yet in a table are only read (what Cells()/Headers() hand out may be copies), and for them 'live' means: what the callback set is visible afterwards",
+		"table/column add-time cell callbacks for a cell added to an already attached row, and any callbacks during a render that is refused (returns an error) before firing a single one, are optional",
+		"render-time callbacks may panic once (scripted); the pass they cut short is not compared, later passes are",
 	}
 }
 
